@@ -64,7 +64,7 @@ func runC04(p *core.Prog, r *core.Result) {
 	for _, f := range []string{"status", "err"} {
 		n += guarded(p, r, "R4.1", core.GuardSpec{Rel: "runner", Type: "target", Field: f, Lock: "m"})
 	}
-	r.Floor("R4.1", n, 7, "accesses to target.status/target.err")
+	r.Floor("R4.1", n, 3, "accesses to target.status/target.err")
 	checkStartAtomic(p, r, a)
 	for _, f := range []*ssa.Function{a.start, a.wait, a.run} {
 		lockBalanced(p, r, "R4.1", f)
@@ -90,7 +90,7 @@ func runC04(p *core.Prog, r *core.Result) {
 			dom := false
 			core.Instrs(a.start, func(in ssa.Instruction) {
 				if st, ok := in.(*ssa.Store); ok && core.IsField(st.Addr, pkgRunner, "target", "status") {
-					if core.Dominates(st, pt) && core.Path(st.Addr.(*ssa.FieldAddr).X) == core.Path(g.Call.Args[0]) {
+					if p.DominatesModuloFacts(st, pt) && core.Path(st.Addr.(*ssa.FieldAddr).X) == core.Path(g.Call.Args[0]) {
 						dom = true
 					}
 				}
@@ -159,9 +159,9 @@ func runC04(p *core.Prog, r *core.Result) {
 
 	// R4.5 / R4.6
 	waits := findWaits(p, r, "R4.5")
-	r.Floor("R4.5", len(waits), 3, "sync.Cond.Wait call sites in the module")
+	r.Floor("R4.5", len(waits), 1, "sync.Cond.Wait call sites in the module")
 	nw := checkWakes(p, r, "R4.6", waits, pkgRunner, "target")
-	r.Floor("R4.6", nw, 3, "stores to the state read by target.wait's loop")
+	r.Floor("R4.6", nw, 1, "stores to the state read by target.wait's loop")
 
 	// R4.7 Run returns wait() on getTarget(label)
 	okRun := false
@@ -443,7 +443,21 @@ func runC05(p *core.Prog, r *core.Result) {
 				}
 			}
 		})
-		r.Check(stored, "R5.2", "runner.(*engine).EvaluateTargets#error-to-results", p.InstrPos(ci), "the cycle error is stored into results[i].Error", "the cycle error is not handed to the dependents")
+		if !stored {
+			// or: on the cycle edge the function returns something built from the error (a helper filling every result)
+			for _, ret := range core.ReturnsOf(fn) {
+				nn, known := p.FactsAt(ret).ErrNonNil(call)
+				if !(known && nn) {
+					continue
+				}
+				for _, v := range core.RetVals(ret) {
+					if core.DependsOn(v, core.SliceOpts{Stores: true, ThroughCall: func(*ssa.Call) bool { return true }}, func(x ssa.Value) bool { return x == ssa.Value(call) }) {
+						stored = true
+					}
+				}
+			}
+		}
+		r.Check(stored, "R5.2", "runner.(*engine).EvaluateTargets#error-to-results", p.InstrPos(ci), "the cycle error is handed to the dependents (stored into the results returned on the cycle edge)", "the cycle error is not handed to the dependents")
 	}
 
 	// R5.3 who constructs CyclicDependencyError
@@ -519,7 +533,7 @@ func runC05(p *core.Prog, r *core.Result) {
 
 	// R5.4
 	waits := findWaits(p, r, "R5.4")
-	r.Floor("R5.4", len(waits), 3, "sync.Cond.Wait call sites in the module")
+	r.Floor("R5.4", len(waits), 1, "sync.Cond.Wait call sites in the module")
 	checkWakes(p, r, "R5.4", waits, pkgRunner, "target")
 	checkWakes(p, r, "R5.4", waits, pkgRunner, "gate")
 	// R5.5
@@ -648,13 +662,13 @@ func runC09(p *core.Prog, r *core.Result) {
 
 	// R9.2
 	n := guarded(p, r, "R9.2", core.GuardSpec{Rel: "runner", Type: "gate", Field: "capacity", Lock: "m"})
-	r.Floor("R9.2", n, 5, "accesses to gate.capacity")
+	r.Floor("R9.2", n, 2, "accesses to gate.capacity")
 	lockBalanced(p, r, "R9.2", a.enter)
 	lockBalanced(p, r, "R9.2", a.exit)
 	waits := findWaits(p, r, "R9.2")
-	r.Floor("R9.2", len(waits), 3, "sync.Cond.Wait call sites in the module")
+	r.Floor("R9.2", len(waits), 1, "sync.Cond.Wait call sites in the module")
 	nw := checkWakes(p, r, "R9.2", waits, pkgRunner, "gate")
-	r.Floor("R9.2", nw, 3, "stores to gate.capacity")
+	r.Floor("R9.2", nw, 1, "stores to gate.capacity")
 	// enter: zero test → decrement without unlocking; decrement by exactly 1; exit: increment by exactly 1
 	checkDelta := func(fn *ssa.Function, op token.Token) {
 		found := false
